@@ -193,37 +193,49 @@ func TestVerifC11bPipeline(t *testing.T) {
 	defer vfDumpDiscovered(t)
 	rapid.Check(t, func(rt *rapid.T) {
 		g := vfNewG(rt, env.pools)
-		// C13's pipeline grammar is deliberately adversarial (most bodies are rejected): retry a few
-		// times for an accepted one, rejected drafts are only counted
-		var body0 map[string]interface{}
-		var info0 vfPipeInfo
-		for attempt := 0; attempt < 5; attempt++ {
-			body0, info0 = vfGenPipelineBody(g, "", 3, true)
-			vfC11StripMirror(body0)
-			if vfC11PipeAccepted(env, body0) {
-				break
-			}
-			vf.Class("rejected-draft")
-		}
-		mode := vfPick(rt, "mode", "same", "mutate", "mutate", "mutate", "independent")
-		var body1 map[string]interface{}
-		info1 := info0
+		// one case in four comes from the resilience sub-domain (see c11b_resilience_test.go): there the
+		// answer depends on the retry / circuit-breaker wrappers but not on time
+		resil := vfChance(rt, "resilience-scenario", 25)
+		var body0, body1 map[string]interface{}
+		var info0, info1 vfPipeInfo
 		var changes []string
-		switch mode {
-		case "same":
-			body1 = vfC11DeepCopy(body0)
-		case "mutate":
-			body1, changes = vfC11MutatePipeline(g, body0, info0)
-		default:
+		var mode string
+		if resil {
+			mode = vfPick(rt, "mode", "same", "mutate", "mutate", "mutate", "independent")
+			s0, s1, ch := vfC11GenResilience(g, mode)
+			body0, info0 = s0.body(vfC11FlakyURL())
+			body1, info1 = s1.body(vfC11FlakyURL())
+			changes = ch
+			vf.Class("resilience-scenario")
+		} else {
+			// C13's pipeline grammar is deliberately adversarial (most bodies are rejected): retry a few
+			// times for an accepted one, rejected drafts are only counted
 			for attempt := 0; attempt < 5; attempt++ {
-				body1, info1 = vfGenPipelineBody(g, "", 3, true)
-				vfC11StripMirror(body1)
-				if vfC11PipeAccepted(env, body1) {
+				body0, info0 = vfGenPipelineBody(g, "", 3, true)
+				vfC11StripMirror(body0)
+				if vfC11PipeAccepted(env, body0) {
 					break
 				}
 				vf.Class("rejected-draft")
 			}
-			changes = []string{"unrelated"}
+			mode = vfPick(rt, "mode", "same", "mutate", "mutate", "mutate", "independent")
+			info1 = info0
+			switch mode {
+			case "same":
+				body1 = vfC11DeepCopy(body0)
+			case "mutate":
+				body1, changes = vfC11MutatePipeline(g, body0, info0)
+			default:
+				for attempt := 0; attempt < 5; attempt++ {
+					body1, info1 = vfGenPipelineBody(g, "", 3, true)
+					vfC11StripMirror(body1)
+					if vfC11PipeAccepted(env, body1) {
+						break
+					}
+					vf.Class("rejected-draft")
+				}
+				changes = []string{"unrelated"}
+			}
 		}
 		// the gate: somewhere in the old flow, at the front of the new one
 		nslots := len(info0.Kinds)
@@ -260,20 +272,27 @@ func TestVerifC11bPipeline(t *testing.T) {
 		}
 
 		// requests
+		genReq := func(mqtt bool) vfC11Req {
+			r := vfC11GenReq(rt, mqtt, false)
+			if resil {
+				vfC11ScriptReq(&r, int(rapid.SampledFrom([]int{1, 0, 1, 2, 3, 9}).Draw(rt, "fail-first-tries")))
+			}
+			return r
+		}
 		var pre, oldR, newR []vfC11Req
 		for i, n := 0, vfUniform(rt, "npre", 3); i < n; i++ {
-			pre = append(pre, vfC11GenReq(rt, info0.MQTT, false))
+			pre = append(pre, genReq(info0.MQTT))
 		}
 		inflight := vfChance(rt, "in-flight-request", 70)
 		var rIn vfC11Req
 		if inflight {
-			rIn = vfC11GenReq(rt, info0.MQTT, false)
+			rIn = genReq(info0.MQTT)
 		}
 		for i, n := 0, 1+vfUniform(rt, "nold", 2); i < n; i++ {
-			oldR = append(oldR, vfC11GenReq(rt, info0.MQTT, false))
+			oldR = append(oldR, genReq(info0.MQTT))
 		}
 		for i, n := 0, 1+vfUniform(rt, "nnew", 3); i < n; i++ {
-			newR = append(newR, vfC11GenReq(rt, info1.MQTT, false))
+			newR = append(newR, genReq(info1.MQTT))
 		}
 		if info0.MQTT == info1.MQTT && vfChance(rt, "repeat-request", 50) {
 			shared := oldR[0]
@@ -295,7 +314,7 @@ func TestVerifC11bPipeline(t *testing.T) {
 
 		describe := func() string {
 			var sb strings.Builder
-			fmt.Fprintf(&sb, "pipeline mode=%s changes=%v gate-position=%d newFirst=%v\n--- old spec:\n%s--- new spec:\n%s", mode, changes, gatePos, newFirst, text0, text1)
+			fmt.Fprintf(&sb, "pipeline resilience-scenario=%v mode=%s changes=%v gate-position=%d newFirst=%v\n--- old spec:\n%s--- new spec:\n%s", resil, mode, changes, gatePos, newFirst, text0, text1)
 			for i, r := range pre {
 				fmt.Fprintf(&sb, "pre[%d]: %s\n", i, r.any.String())
 			}
@@ -325,6 +344,11 @@ func TestVerifC11bPipeline(t *testing.T) {
 			return
 		}
 		nondet0, nondet1 := vfC11Nondet("Pipeline", body0), vfC11Nondet("Pipeline", body1)
+		if resil {
+			// scripted upstream, COUNT_BASED breakers, no timeouts: deterministic by construction (the
+			// structural classifier only knows that policy references are time dependent in general)
+			nondet0, nondet1 = "", ""
+		}
 		if nondet0 == "" {
 			again, ok2, _ := vfC11PipeTwin(env, text0, oldSeq)
 			if !ok2 || !vfC11SameOutcomes(ref0, again) {
@@ -355,8 +379,14 @@ func TestVerifC11bPipeline(t *testing.T) {
 		// ---- the update scenario
 		dk := fmt.Sprintf("pipeline|%s|%v|%d|%v|%s|%s|%s|%s", mode, changes, gatePos, newFirst, strings.Join(info0.Kinds, ","), strings.Join(info1.Kinds, ","),
 			strings.Join(g.Present(), ","), strings.Join(g.Bounds(), ","))
+		if resil {
+			dk += "|resilience|" + text0 + "|" + text1
+		}
 		for _, r := range append(append([]vfC11Req{}, oldSeq...), newR...) {
 			dk += "|" + r.any.Class()
+			if resil {
+				dk += "|" + r.any.String()
+			}
 		}
 		kindOf := func(c vfC11CallResult) string {
 			if c.fkind != "" {
